@@ -369,6 +369,84 @@ theorem wLoop2HM_eq {H : String → UInt64} {base all : List String} {m : EMap} 
         · rw [ih']
       | some info => simp only; exact ih' same
 
+/-! ## no panic whatever the keys (the fall-through on trees with other taxa) -/
+
+/-- a map whose bucket array has the announced, positive, size answers every lookup -/
+def Sized (m : EMap) : Prop := m.buckets.length = m.cap ∧ 1 ≤ m.cap
+
+theorem sized_of_rep {H : String → UInt64} {base : List String} {m : EMap} {ix : Index} (h : Rep H base m ix) :
+    Sized m := by
+  obtain ⟨m', _, hm, hI, _, _, _⟩ := h
+  rw [← hm]
+  exact ⟨by simp [mapHM, hI.len], hI.pos⟩
+
+theorem get_total {m : EMap} (h : Sized m) (k : EdgeIdx) : ∃ o, m.get ehash eeqv k = some o := by
+  have hi : C04.indexFor (ehash k) m.cap < m.buckets.length := by rw [h.1]; exact C04.indexFor_lt _ h.2
+  simp only [HM.get, List.getElem?_eq_getElem hi]
+  exact ⟨_, rfl⟩
+
+theorem cmpLoopHM_total {m : EMap} (h : Sized m) (tips sc : Bool) (l : List (EdgeIdx × SplitE)) (st : LoopSt) :
+    ∃ st', cmpLoopHM m tips sc l st = some st' := by
+  induction l generalizing st with
+  | nil => exact ⟨st, rfl⟩
+  | cons x r ih =>
+    obtain ⟨k, e⟩ := x
+    obtain ⟨o, ho⟩ := get_total h k
+    simp only [cmpLoopHM, ho, Option.map_some]
+    cases e.tip with
+    | true =>
+      simp only [Bool.not_true, Bool.false_eq_true, if_false, Bool.and_true, Bool.true_and]
+      exact ih _
+    | false =>
+      simp only [Bool.not_false, if_true]
+      split
+      · exact ⟨_, rfl⟩
+      · exact ih _
+
+theorem wLoop1HM_total {m : EMap} (h : Sized m) (tips sc : Bool) (l : List (EdgeIdx × SplitE)) (same : Bool) :
+    ∃ x, wLoop1HM m tips sc l same = some x := by
+  induction l generalizing same with
+  | nil => exact ⟨_, rfl⟩
+  | cons x r ih =>
+    obtain ⟨k, e⟩ := x
+    obtain ⟨o, ho⟩ := get_total h k
+    simp only [wLoop1HM, ho]
+    cases counted tips e with
+    | false => simp only [Bool.false_eq_true, if_false]; exact ih _
+    | true =>
+      simp only [if_true]
+      cases o with
+      | none =>
+        simp only
+        split
+        · exact ⟨_, rfl⟩
+        · obtain ⟨y, hy⟩ := ih false; rw [hy]; exact ⟨_, rfl⟩
+      | some info =>
+        simp only
+        split
+        · exact ⟨_, rfl⟩
+        · obtain ⟨y, hy⟩ := ih (same && info.len == e.e.len); rw [hy]; exact ⟨_, rfl⟩
+
+theorem wLoop2HM_total {m : EMap} (h : Sized m) (tips sc : Bool) (l : List (EdgeIdx × SplitE)) (same : Bool) :
+    ∃ x, wLoop2HM m tips sc l same = some x := by
+  induction l generalizing same with
+  | nil => exact ⟨_, rfl⟩
+  | cons x r ih =>
+    obtain ⟨k, e⟩ := x
+    obtain ⟨o, ho⟩ := get_total h k
+    simp only [wLoop2HM, ho]
+    cases counted tips e with
+    | false => simp only [Bool.false_eq_true, if_false]; exact ih _
+    | true =>
+      simp only [if_true]
+      cases o with
+      | none =>
+        simp only
+        split
+        · exact ⟨_, rfl⟩
+        · obtain ⟨y, hy⟩ := ih false; rw [hy]; exact ⟨_, rfl⟩
+      | some info => simp only; exact ih _
+
 /-! ## the records -/
 
 /-- `Compare` through `ReinitIndexes` and the hash map = the association-list model, for every
@@ -423,6 +501,74 @@ theorem compareWeightedHM_eq' (H : String → UInt64) (policy : Nat → Nat → 
       | false =>
         obtain ⟨m2, hm2, _⟩ := buildHM_rep H policy c hnc (Perm.refl _)
         simp [hm2]
+      | true =>
+        have hp := perm_of_compareTipIndexes hr hc h3
+        obtain ⟨m2, hm2, hrep2⟩ := buildHM_rep (base := r.tipNames) H policy c hnc hp.symm
+        simp only [hm2, Bool.not_true, Bool.false_eq_true, if_false]
+        rw [zip_map_self, zip_map_self,
+          wLoop1HM_eq hrep tips sc c.splits (isKey_of_split H c hnc hp.symm)]
+        simp only [wLoop2HM_eq hrep2 tips sc r.splits (isKey_of_split H r hnr (Perm.refl _))]
+
+/-- `Compare` through `ReinitIndexes` and the hash map = the association-list model, for every
+    name hash, every rehash policy and all inputs; in particular the map never panics. -/
+theorem compareHMFallthrough_eq' (H : String → UInt64) (policy : Nat → Nat → Bool) (r c : T) (tips sc : Bool) :
+    compareHMFallthrough H policy r c tips sc = .res (compare r c tips sc) := by
+  unfold compareHMFallthrough compare
+  cases hr : reinitOk r with
+  | false =>
+    obtain ⟨msg, he⟩ := reinit_err H r hr
+    simp [he]
+  | true =>
+    rw [reinit_ok H r hr]
+    have hnr := nodup_of_reinitOk hr
+    obtain ⟨m, hm, hrep⟩ := buildHM_rep H policy r hnr (Perm.refl _)
+    simp only [hm, Bool.not_true, Bool.false_eq_true, if_false]
+    cases hc : reinitOk c with
+    | false =>
+      obtain ⟨msg, he⟩ := reinit_err H c hc
+      simp [he]
+    | true =>
+      rw [reinit_ok H c hc]
+      simp only [Bool.not_true, Bool.false_eq_true, if_false]
+      cases h3 : compareTipIndexes r.tipNames c.tipNames with
+      | false =>
+        -- other taxa: the loop runs all the same (and cannot panic), then the record carries `Err`
+        obtain ⟨st', hst⟩ := cmpLoopHM_total (sized_of_rep hrep) tips sc
+          ((c.splits.map fun s => specIdx H c.tipNames s.below).zip c.splits) ⟨0, 0, true⟩
+        simp [hst]
+      | true =>
+        have hp := perm_of_compareTipIndexes hr hc h3
+        simp only [Bool.not_true, Bool.false_eq_true, if_false]
+        rw [zip_map_self, cmpLoopHM_eq hrep tips sc c.splits (isKey_of_split H c (nodup_of_reinitOk hc) hp.symm)]
+
+theorem compareWeightedHMFallthrough_eq' (H : String → UInt64) (policy : Nat → Nat → Bool) (r c : T) (tips sc : Bool) :
+    compareWeightedHMFallthrough H policy r c tips sc = .res (compareWeighted r c tips sc) := by
+  unfold compareWeightedHMFallthrough compareWeighted
+  cases hr : reinitOk r with
+  | false =>
+    obtain ⟨msg, he⟩ := reinit_err H r hr
+    simp [he]
+  | true =>
+    rw [reinit_ok H r hr]
+    have hnr := nodup_of_reinitOk hr
+    obtain ⟨m, hm, hrep⟩ := buildHM_rep H policy r hnr (Perm.refl _)
+    simp only [hm, Bool.not_true, Bool.false_eq_true, if_false]
+    cases hc : reinitOk c with
+    | false =>
+      obtain ⟨msg, he⟩ := reinit_err H c hc
+      simp [he]
+    | true =>
+      rw [reinit_ok H c hc]
+      have hnc := nodup_of_reinitOk hc
+      simp only [Bool.not_true, Bool.false_eq_true, if_false]
+      cases h3 : compareTipIndexes r.tipNames c.tipNames with
+      | false =>
+        obtain ⟨m2, hm2, hrep2⟩ := buildHM_rep H policy c hnc (Perm.refl _)
+        obtain ⟨x1, hx1⟩ := wLoop1HM_total (sized_of_rep hrep) tips sc
+          ((c.splits.map fun s => specIdx H c.tipNames s.below).zip c.splits) true
+        obtain ⟨x2, hx2⟩ := wLoop2HM_total (sized_of_rep hrep2) tips sc
+          ((r.splits.map fun s => specIdx H r.tipNames s.below).zip r.splits) x1.2.2
+        simp [hm2, hx1, hx2]
       | true =>
         have hp := perm_of_compareTipIndexes hr hc h3
         obtain ⟨m2, hm2, hrep2⟩ := buildHM_rep (base := r.tipNames) H policy c hnc hp.symm
